@@ -63,6 +63,7 @@ type Line struct {
 	Done    bool   `json:"done"`    // Done() closed
 	Err     string `json:"err"`     // nil | user | nomore | timeout | cb | other
 	Fin     int    `json:"fin"`     // finally callback runs so far
+	FinAD   int    `json:"finad"`   // ... of which started with Done already closed
 	Cb      int    `json:"cb"`      // retry callback invocations so far
 	CbAD    int    `json:"cbad"`    // ... of which started with Done already closed
 	Parked  bool   `json:"parked"`  // a retry callback is parked on the gate
@@ -112,6 +113,7 @@ type world struct {
 	mu      sync.Mutex
 	t       tx
 	fin     int
+	finad   int
 	cb      int
 	cbad    int
 	parked  bool
@@ -123,8 +125,14 @@ type world struct {
 }
 
 func (w *world) finally() {
+	// the completion callback must have run by the time Done is closed: a callback that starts
+	// with Done already closed was preceded by a window in which waiters saw "done, 0 callbacks"
+	late := w.t != nil && isDone(w.t)
 	w.mu.Lock()
 	w.fin++
+	if late {
+		w.finad++
+	}
 	w.mu.Unlock()
 }
 
@@ -212,7 +220,7 @@ func runSched(sc Sched, emit func(Line)) {
 		el := time.Since(start)
 		w.mu.Lock()
 		l := Line{Tr: sc.ID, I: idx, Kind: sc.Kind, RC: sc.RC, RD: sc.RD, TO: sc.TO, Ev: ev, CbErr: cberr,
-			Now: int(el / tick), Exact: el%tick == 0, Fin: w.fin, Cb: w.cb, CbAD: w.cbad, Parked: w.parked,
+			Now: int(el / tick), Exact: el%tick == 0, Fin: w.fin, FinAD: w.finad, Cb: w.cb, CbAD: w.cbad, Parked: w.parked,
 			PRet: w.pret, Blocked: w.started - w.ret}
 		w.pret = 0
 		w.mu.Unlock()
